@@ -833,9 +833,20 @@ func (c *c11Reg) datagrams(pub []byte, n int) [][]byte {
 		}
 		return b
 	}
+	sealedFrame := func() []byte {
+		p, _ := msgformat.AddRequestFormat(seal(small()))
+		return p
+	}
+	pl := c11Payloads{sealed: sealedFrame}
+	// hand-written datagrams, then the exhaustive product of the small dimensions, then random ones
+	out = append(out, c11DNSCorpus(domain)...)
+	out = append(out, c.enumQueries(domain, pl)...)
+	c.out.Note(fmt.Sprintf("DNS responder: %d hand-written and exhaustively enumerated datagrams in front of %d random ones", len(out), n))
 	for i := 0; i < n; i++ {
 		var d []byte
-		switch c.r.Intn(10) {
+		switch c.r.Intn(16) {
+		case 10, 11, 12, 13, 14, 15: // every dimension of a query drawn independently
+			d = c.structuredQuery(domain, pl, uint16(i))
 		case 0:
 			d = c.r.Bytes(c.r.Intn(64))
 		case 1: // query with arbitrary label content
@@ -893,6 +904,13 @@ type feedConn struct {
 	base     int
 	progress *os.File
 	answers  int
+	mu       sync.Mutex // the progress file is written by the loop and by the handler goroutines
+}
+
+func (f *feedConn) log(format string, a ...any) {
+	f.mu.Lock()
+	fmt.Fprintf(f.progress, format, a...)
+	f.mu.Unlock()
 }
 
 func (f *feedConn) ReadFrom(p []byte) (int, net.Addr, error) {
@@ -903,12 +921,12 @@ func (f *feedConn) ReadFrom(p []byte) (int, net.Addr, error) {
 		start, slow := time.Now(), false
 		for runtime.NumGoroutine() > f.base {
 			if d := time.Since(start); d > 15*time.Second {
-				fmt.Fprintf(f.progress, "HANG %d\n", f.next-1)
-				f.base = runtime.NumGoroutine()
-				break
+				// the goroutine may spin for ever: end this child, the parent goes on behind the datagram
+				f.log("HANG %d\n", f.next-1)
+				os.Exit(3)
 			} else if d > 2*time.Second && !slow {
 				slow = true
-				fmt.Fprintf(f.progress, "SLOW %d\n", f.next-1)
+				f.log("SLOW %d\n", f.next-1)
 			}
 			time.Sleep(20 * time.Microsecond)
 		}
@@ -916,13 +934,20 @@ func (f *feedConn) ReadFrom(p []byte) (int, net.Addr, error) {
 	if f.next >= len(f.in) {
 		return 0, nil, io.EOF
 	}
-	fmt.Fprintf(f.progress, "%d\n", f.next)
+	// the datagram is named in the trail before the code under test sees it
+	f.log("%d\n", f.next)
 	n := copy(p, f.in[f.next])
 	f.next++
 	return n, &net.UDPAddr{IP: net.IPv4(127, 0, 0, 1), Port: 5353}, nil
 }
 
-func (f *feedConn) WriteTo(p []byte, addr net.Addr) (int, error) { f.answers++; return len(p), nil }
+func (f *feedConn) WriteTo(p []byte, addr net.Addr) (int, error) {
+	f.mu.Lock()
+	f.answers++
+	fmt.Fprintf(f.progress, "W %d %s\n", f.next-1, hex.EncodeToString(p))
+	f.mu.Unlock()
+	return len(p), nil
+}
 func (f *feedConn) Close() error                                 { return nil }
 func (f *feedConn) LocalAddr() net.Addr                          { return &net.UDPAddr{IP: net.IPv4(127, 0, 0, 1), Port: 53} }
 func (f *feedConn) SetDeadline(t time.Time) error                { return nil }
@@ -943,7 +968,7 @@ func TestVerifC11Child(t *testing.T) {
 	}
 	var in [][]byte
 	for _, l := range strings.Split(strings.TrimSpace(string(raw)), "\n") {
-		b, _ := hex.DecodeString(l)
+		b, _ := hex.DecodeString(strings.TrimPrefix(l, "-"))
 		in = append(in, b)
 	}
 	progress, err := os.OpenFile(os.Getenv("VERIF_C11_CHILD_PROGRESS"), os.O_CREATE|os.O_WRONLY|os.O_TRUNC, 0o644)
@@ -963,9 +988,15 @@ func TestVerifC11Child(t *testing.T) {
 	callbacks := 0
 	_ = resp.RecvAndRespond(func(b []byte) ([]byte, error) {
 		callbacks++
-		return srv.VerifProcessRequest(b)
+		r, err := srv.VerifProcessRequest(b)
+		if err != nil {
+			feed.log("C %d %s ERR\n", feed.next-1, "x"+hex.EncodeToString(b))
+		} else {
+			feed.log("C %d %s %s\n", feed.next-1, "x"+hex.EncodeToString(b), "x"+hex.EncodeToString(r))
+		}
+		return r, err
 	})
-	fmt.Fprintf(progress, "DONE %d %d\n", feed.answers, callbacks)
+	feed.log("DONE %d %d\n", feed.answers, callbacks)
 }
 
 func (c *c11Reg) dnsChild(t *testing.T) {
@@ -981,13 +1012,21 @@ func (c *c11Reg) feedChild(t *testing.T, priv []byte, in [][]byte) {
 	inPath, progPath := filepath.Join(dir, "in.txt"), filepath.Join(dir, "progress.txt")
 	var sb strings.Builder
 	for _, d := range in {
+		if len(d) == 0 {
+			sb.WriteString("-") // an empty line would be lost at the start of the file
+		}
 		sb.WriteString(hex.EncodeToString(d))
 		sb.WriteByte('\n')
 	}
 	if err := os.WriteFile(inPath, []byte(sb.String()), 0o644); err != nil {
 		t.Fatal(err)
 	}
-	start := 0
+	domain, _ := dns.ParseName(c11Domain)
+	model, merr := responder.NewDnsResponder(c11Domain, "127.0.0.1:0", priv) // craftResponse for the model's table
+	if merr == nil {
+		_ = model.Close()
+	}
+	start, hangs := 0, 0
 	for round := 0; round < 25 && start < len(in); round++ {
 		cmd := exec.Command(os.Args[0], "-test.run=^TestVerifC11Child$", "-test.timeout=25m")
 		cmd.Env = append(os.Environ(), "VERIF_C11_CHILD_IN="+inPath, "VERIF_C11_CHILD_PROGRESS="+progPath,
@@ -998,13 +1037,42 @@ func (c *c11Reg) feedChild(t *testing.T, priv []byte, in [][]byte) {
 		cmd.Stdout = &stderr
 		err := cmd.Run()
 		prog, _ := os.ReadFile(progPath)
-		last, done, answers, callbacks := -1, false, 0, 0
+		last, done, answers, callbacks, hung := -1, false, 0, 0, -1
+		seen := map[int]*c11Seen{}
+		at := func(k int) *c11Seen {
+			if seen[k] == nil {
+				seen[k] = &c11Seen{}
+			}
+			return seen[k]
+		}
 		sc := bufio.NewScanner(bytes.NewReader(prog))
+		sc.Buffer(make([]byte, 1<<16), 1<<24)
 		for sc.Scan() {
 			l := sc.Text()
 			switch {
+			case strings.HasPrefix(l, "W "):
+				var k int
+				var x string
+				if n, _ := fmt.Sscanf(l, "W %d %s", &k, &x); n >= 1 {
+					b, _ := hex.DecodeString(x)
+					at(k).written = append(at(k).written, b)
+				}
+			case strings.HasPrefix(l, "C "):
+				var k int
+				var x, y string
+				if n, _ := fmt.Sscanf(l, "C %d %s %s", &k, &x, &y); n == 3 {
+					s := at(k)
+					s.called = true
+					s.request, _ = hex.DecodeString(strings.TrimPrefix(x, "x"))
+					if y == "ERR" {
+						s.failed = true
+					} else {
+						s.response, _ = hex.DecodeString(strings.TrimPrefix(y, "x"))
+					}
+				}
 			case strings.HasPrefix(l, "HANG "):
 				k, _ := strconv.Atoi(strings.TrimPrefix(l, "HANG "))
+				hung = k
 				c.out.OracleFail("C11:dns-responder:hang", "a datagram was not dealt with within 15 s", "dns|"+hex.EncodeToString(in[k])+"|"+hex.EncodeToString(priv))
 			case strings.HasPrefix(l, "SLOW "):
 				c.out.Count("dns-child:slow")
@@ -1017,6 +1085,14 @@ func (c *c11Reg) feedChild(t *testing.T, priv []byte, in [][]byte) {
 		}
 		for i := start; i <= last; i++ {
 			c.out.Checked()
+			// every datagram the child dealt with completely, against the model of the handler
+			if merr == nil && i < len(in) && (i < last || (done && err == nil)) {
+				s := c11Seen{}
+				if seen[i] != nil {
+					s = *seen[i]
+				}
+				c.dgramCase(model, domain, in[i], s)
+			}
 		}
 		if done && err == nil {
 			c.out.Note(fmt.Sprintf("responder child: %d datagrams from #%d, %d answered, %d decrypted and passed to the registrar", last-start+1, start, answers, callbacks))
@@ -1027,6 +1103,15 @@ func (c *c11Reg) feedChild(t *testing.T, priv []byte, in [][]byte) {
 			c.out.Note("responder child did not start: " + stderr.String())
 			c.out.OracleFail("C11:dns-responder:child-did-not-run", "the child process that drives RecvAndRespond failed before the first datagram", stderr.String())
 			return
+		}
+		if hung >= 0 { // the child gave up on a datagram whose handler did not end; three of those are enough
+			hangs++
+			if hangs >= 3 {
+				c.out.Note(fmt.Sprintf("responder child: stopped after %d datagrams whose handler did not end within 15 s", hangs))
+				return
+			}
+			start = hung + 1
+			continue
 		}
 		sig, what := crashSig("dns-responder", stderr.String())
 		c.out.OracleFail(sig, "the process died while handling a datagram; "+what, "dns|"+hex.EncodeToString(in[last])+"|"+hex.EncodeToString(priv))
